@@ -64,7 +64,7 @@ func expect(tier string) []string {
 	e := []string{"ring=Std", "ring=CI", "P=0", "P=1", "P=2", "key=sk", "key=pk", "path=sk", "path=pkNoP", "path=pkWithP",
 		"degree=0", "degree=1", "degree=2", "IsNTT=true", "IsNTT=false", "IsMontgomery=true", "IsMontgomery=false",
 		"level=max", "level=below-max", "levels=ct!=pt", "target=stale", "NTTFlag=true", "NTTFlag=false",
-		"dec=0", "dec=1", "dec=2", "stat-key=sk", "stat-key=pk", "stat-probe=zero-pk", "stat-probe=pk-QP",
+		"dec=0", "dec=1", "dec=2", "stat-key=sk", "stat-key=pk", "stat-probe=zero-pk", "stat-probe=pk-QP", "stat-probe=fresh-object-first-draw",
 		"keys-kind=pk", "keys-kind=rlk", "keys-kind=gk", "keys-kind=evk", "keys-compressed=true", "keys-compressed=false",
 		"keys-LevelP=-1", "keys-LevelP=0", "keys-LevelP=1", "keys-LevelQ=below-max", "keys-LevelQ=max", "keys-tail=#P-does-not-divide-#Q"}
 	for _, k := range []string{sigMontSk, sigMontPkNoP, sigDeg2Sk, sigDeg0Pk, "none(control)"} {
